@@ -53,8 +53,8 @@ def _run_worker(part: Part, extra: List[str], timeout: float) -> Dict[str, Any]:
     try:
         p = subprocess.run(cmd, capture_output=True, text=True, timeout=timeout, env=_env(part), cwd=str(HERE))
     except subprocess.TimeoutExpired:
-        return {"status": "not_confirmed", "error": "worker wall timeout", "wall_s": time.time() - t0,
-                "paths": {}, "z3": {}, "reach": 0, "messages": [], "ce_args": None}
+        return {"status": "error", "error": "worker exceeded its wall-clock limit (%ds): some path does not terminate" % timeout,
+                "wall_s": time.time() - t0, "paths": {}, "z3": {}, "reach": 0, "messages": [], "ce_args": None}
     for line in reversed(p.stdout.splitlines()):
         if line.startswith("VTRESULT "):
             return json.loads(line[len("VTRESULT "):])
@@ -65,7 +65,7 @@ def _run_worker(part: Part, extra: List[str], timeout: float) -> Dict[str, Any]:
 
 def analyze(part: Part) -> Dict[str, Any]:
     r = _run_worker(part, ["--cond-timeout", str(part.cond_timeout), "--path-timeout", str(part.path_timeout)],
-                    timeout=part.cond_timeout * 2 + 120)
+                    timeout=part.cond_timeout + 120)
     r["label"] = part.label
     r["obligation"] = part.obligation
     return r
@@ -164,6 +164,9 @@ class Report:
     # -- output -------------------------------------------------------------------
     def finish(self) -> int:
         out = HERE / "out" / "replays" / self.prop
+        if out.exists():
+            for old in out.iterdir():
+                old.unlink()
         lines = []
         for i, v in enumerate(self.violations):
             out.mkdir(parents=True, exist_ok=True)
